@@ -24,6 +24,14 @@ type treeState struct {
 	st   *execStats
 }
 
+func preload() {
+	for _, n := range corpus.Names() {
+		p := corpus.Get(n)
+		p.Schema()
+		findLists(p)
+	}
+}
+
 func pickPkg(r *simrt.Rng) *corpus.Pkg {
 	ns := corpusNames()
 	return corpus.Get(ns[r.Intn(len(ns))])
